@@ -38,7 +38,10 @@ class Multipart(Codec):
 			if not part.startswith(b'\r\n'):
 				raise DecodeError(_(u'Invalid boundary end: %r'), part[:2].decode('ISO8859-1'))
 			part = part[2:]
-			headers, separator, content = part.partition(b'\r\n\r\n')
+			if part.startswith(b'\r\n'):  # a part without header fields
+				headers, separator, content = b'', b'\r\n', part[2:]
+			else:
+				headers, separator, content = part.partition(b'\r\n\r\n')
 			if not separator:
 				raise DecodeError(_(u'Multipart does not contain CRLF header separator'))
 			if not content.endswith(b'\r\n'):
@@ -46,7 +49,8 @@ class Multipart(Codec):
 			content = content[:-2]
 			body = Body()
 			body.headers.clear()
-			body.headers.parse(headers)
+			if headers:
+				body.headers.parse(headers)
 			body.headers.setdefault('Content-Type', cls.default_content_type)
 			body.parse(content)
 			multiparts.append(body)
